@@ -35,7 +35,11 @@ type EnvFam struct {
 	Boundary bool // add //p:g with pass_env=[FOO, GOO] and one compound edit that moves the FOO/GOO value boundary (C08's separator-less hash, end to end)
 	WithRm   bool
 	WithNoop bool
+	Sandbox  bool // add //p:s with sandbox=True, run through an external sandbox tool (FakeSandboxTool: runs its arguments with the environment it got)
 }
+
+// FakeSandboxTool is the absolute path of a stand-in for please_sandbox (set and created by the harness).
+var FakeSandboxTool string
 
 func (c EnvFam) Name() string {
 	if c.Boundary {
@@ -98,13 +102,17 @@ func (c EnvFam) Edits(s Src) []Edit {
 
 // ExtraConfig is the configuration text that belongs to the variant.
 func (c EnvFam) ExtraConfig() string {
+	sb := ""
+	if c.Sandbox {
+		sb = "[sandbox]\ntool = " + FakeSandboxTool + "\n"
+	}
 	switch c.Cfg {
 	case "unsafe":
-		return "[build]\npassunsafeenv = BAR\n"
+		return "[build]\npassunsafeenv = BAR\n" + sb
 	case "both":
-		return "[build]\npassunsafeenv = BAR\npassenv = QUX\n"
+		return "[build]\npassunsafeenv = BAR\npassenv = QUX\n" + sb
 	}
-	return ""
+	return sb
 }
 
 func (c EnvFam) Files(s Src) map[string]string {
@@ -114,6 +122,9 @@ func (c EnvFam) Files(s Src) map[string]string {
 	if c.Boundary {
 		fmt.Fprintf(&b, "genrule(name=\"g\", outs=[\"g.out\"], pass_env=[\"FOO\", \"GOO\"], cmd=%q)\n", fmt.Sprintf(logPfx, "//p:g")+envDumpCmd)
 	}
+	if c.Sandbox {
+		fmt.Fprintf(&b, "genrule(name=\"s\", outs=[\"s.out\"], sandbox=True, cmd=%q)\n", fmt.Sprintf(logPfx, "//p:s")+strings.Replace(envDumpCmd, "$OUT", "s.out", 1)) // ($OUT names the sandbox mount point, which the stand-in tool does not create; the working directory is the real one)
+	}
 	return map[string]string{"p/BUILD": b.String()}
 }
 
@@ -121,6 +132,9 @@ func (c EnvFam) Targets(s Src) []Target {
 	ts := []Target{{"//p:n", []string{"plz-out/gen/p/n.out"}}, {"//p:f", []string{"plz-out/gen/p/f.out"}}}
 	if c.Boundary {
 		ts = append(ts, Target{"//p:g", []string{"plz-out/gen/p/g.out"}})
+	}
+	if c.Sandbox {
+		ts = append(ts, Target{"//p:s", []string{"plz-out/gen/p/s.out"}})
 	}
 	if o := s["only"]; o != "" {
 		for _, t := range ts {
